@@ -278,7 +278,9 @@ def profile_for(pid, tier):
         P["allowed_features"] = ["mixed_addr"]
         P["ops"].update({"abort": 5})
     elif pid == "C06":
-        P["ops"].update({"undo": 8, "update": 6, "regenerate": 4, "index_edit": 3, "static_edit": 2})
+        P["ops"].update({"undo": 8, "update": 6, "regenerate": 4, "index_edit": 5, "static_edit": 2})
+        G["scan_editable"] = 0.6
+        G["kinds"].update({"scan": 5, "vmap": 4, "mask": 3})
     elif pid == "C07":
         P["ops"].update({"regenerate": 9, "undo": 2})
         G["kinds"].update({"vmap": 1, "repeat": 1, "switch": 1, "mask": 1})
@@ -287,6 +289,7 @@ def profile_for(pid, tier):
     elif pid == "C05":
         P["ops"].update({"update": 10})
         P["argchange"] = 0.6
+        G["kinds"].update({"mask": 4, "switch": 4})
     elif pid == "C10":
         P["ops"].update({"project": 8})
     elif pid == "C34":
